@@ -43,14 +43,16 @@ def nested_product_as_specified(case, fail):
 def nested_crash_site(case, fail):
     """D17 / D17b: the model has a component with children and the failing run died with the
     ValueError that list.remove() raises inside BaseWorkplace.remove_placed_component (the
-    driver records the innermost frame of an escaping exception as run["exc_site"])."""
+    driver records the pDESy frames and the message of an escaping exception as run["exc_site"])."""
     if not nested_product(case, fail):
         return False
     runs = case.get("runs", [])
     i = fail.get("run", 1)
     run = runs[i - 1] if 0 < i <= len(runs) else (runs[0] if runs else {})
-    return (run.get("ret") == "exc:ValueError"
-            and run.get("exc_site") == "base_workplace.py:remove_placed_component")
+    site = run.get("exc_site") or ""
+    # (any frame, not only the innermost: a refactoring may move the list.remove() call into a helper)
+    return (run.get("ret") == "exc:ValueError" and "base_workplace.py:remove_placed_component" in site
+            and "list.remove(x)" in site)
 
 
 def multi_task_component(case, fail):
